@@ -68,7 +68,11 @@ PickTarget == /\ Scope = "targets" /\ phase = 0
 PickBlocks == /\ Scope = "targets" /\ phase = 1
               /\ \E b \in TBlocks, n \in 0..2 : blk' = b /\ nblk' = (IF bk = "slice" THEN n ELSE 1)
               /\ phase' = 2 /\ UNCHANGED <<d, tn, tk, bk>>
-Next == AddField \/ PickName \/ AddEnt \/ PickTarget \/ PickBlocks
+\* big scope: N blocks bound to a slice (or the last of them to a struct): constant indices and slot numbers across 240/241, 255/256
+BigNs == {1, 2, 39, 40, 41, 59, 60, 61, 62, 79, 80, 81, 84, 85, 86, 119, 120, 121, 128, 129, 300}
+PickBig == /\ Scope = "big" /\ phase = 0 /\ \E n \in BigNs, b \in {"struct", "slice"} : nblk' = n /\ bk' = b
+           /\ phase' = 2 /\ UNCHANGED <<d, tn, blk, tk>>
+Next == AddField \/ PickName \/ AddEnt \/ PickTarget \/ PickBlocks \/ PickBig
 Spec == Init /\ [][Next]_vars
 
 RECURSIVE TvJ(_)
@@ -92,7 +96,8 @@ Case == [ fam |-> "bind", tk |-> tk, bk |-> bk, nblk |-> nblk, tname |-> tn, des
           nt |-> (Len(blk.ents) >= 2 \/ tk # "ptr-struct"),
           sens |-> (Cardinality({ i \in 1..Len(blk.ents) : ExpectEnt(T, blk.ents[i]) = "error" }) >= 2 \/ Collides(T, blk)) ]
 Complete == (Scope = "fields" /\ phase >= 1) \/ (Scope = "targets" /\ phase = 2)
-Emit == Complete => PrintT(<<"CASE", ToJson(Case)>>)
+Emit == /\ Complete => PrintT(<<"CASE", ToJson(Case)>>)
+        /\ (Scope = "big" /\ phase = 2) => PrintT(<<"CASE", ToJson([fam |-> "bindbig", n |-> nblk, bk |-> bk, nt |-> TRUE])>>)
 \* design-level lemmas of BclBindRules, evaluated in every generated case
 Lemmas == Complete /\ Scope = "fields" => OrderFree(T, blk) /\ NoDrop(T, blk)
 ====
